@@ -1803,7 +1803,12 @@ impl TypeChecker {
 
     fn add(&mut self, span: Span, ctx: TypeCtx, a: TyID, b: TyID) -> TypeResult<()> {
         match (self.find_type(a), self.find_type(b)) {
-            (Type::Unknown, _) | (_, Type::Unknown) => Ok(()),
+            (Type::Unknown, _) | (_, Type::Unknown) => {
+                // Checked again when the unknown side becomes known.
+                self.add_constraint(a, span, Constraint::Add(b));
+                self.add_constraint(b, span, Constraint::Add(a));
+                Ok(())
+            }
 
             (Type::Float, Type::Float) | (Type::Int, Type::Int) | (Type::Str, Type::Str) => Ok(()),
 
@@ -1828,7 +1833,13 @@ impl TypeChecker {
 
     fn neg(&mut self, span: Span, a: TyID) -> TypeResult<()> {
         match self.find_type(a) {
-            Type::Unknown | Type::Int | Type::Float => Ok(()),
+            Type::Unknown => {
+                // Checked again when the type becomes known.
+                self.add_constraint(a, span, Constraint::Neg);
+                Ok(())
+            }
+
+            Type::Int | Type::Float => Ok(()),
 
             Type::Tuple(tys) => {
                 for t in tys.iter() {
@@ -1847,7 +1858,12 @@ impl TypeChecker {
 
     fn sub(&mut self, span: Span, ctx: TypeCtx, a: TyID, b: TyID) -> TypeResult<()> {
         match (self.find_type(a), self.find_type(b)) {
-            (Type::Unknown, _) | (_, Type::Unknown) => Ok(()),
+            (Type::Unknown, _) | (_, Type::Unknown) => {
+                // Checked again when the unknown side becomes known.
+                self.add_constraint(a, span, Constraint::Sub(b));
+                self.add_constraint(b, span, Constraint::Sub(a));
+                Ok(())
+            }
 
             (Type::Float, Type::Float) | (Type::Int, Type::Int) => Ok(()),
 
@@ -1872,7 +1888,12 @@ impl TypeChecker {
 
     fn mul(&mut self, span: Span, ctx: TypeCtx, a: TyID, b: TyID) -> TypeResult<()> {
         match (self.find_type(a), self.find_type(b)) {
-            (Type::Unknown, _) | (_, Type::Unknown) => Ok(()),
+            (Type::Unknown, _) | (_, Type::Unknown) => {
+                // Checked again when the unknown side becomes known.
+                self.add_constraint(a, span, Constraint::Mul(b));
+                self.add_constraint(b, span, Constraint::Mul(a));
+                Ok(())
+            }
 
             (Type::Float, Type::Float) | (Type::Int, Type::Int) => Ok(()),
 
@@ -1973,7 +1994,12 @@ impl TypeChecker {
 
     fn cmp(&mut self, span: Span, ctx: TypeCtx, a: TyID, b: TyID) -> TypeResult<()> {
         match (self.find_type(a), self.find_type(b)) {
-            (Type::Unknown, _) | (_, Type::Unknown) => Ok(()),
+            (Type::Unknown, _) | (_, Type::Unknown) => {
+                // Checked again when the unknown side becomes known.
+                self.add_constraint(a, span, Constraint::Cmp(b));
+                self.add_constraint(b, span, Constraint::Cmp(a));
+                Ok(())
+            }
 
             (Type::Float, Type::Float)
             | (Type::Int, Type::Int)
